@@ -315,6 +315,33 @@ pub fn law_c09_sub_is_add_negation(d: Date, ts: Timestamp, i: IntervalYM)
     if c.is_ok() { assert(c.unwrap().v() == e.unwrap().v()); }
 }
 
+// ---------------------------------------------------------------- C11
+// the documented midpoint: from year 51 of the century on, the later boundary is chosen
+pub fn law_c11_round_century_midpoint(d: Date)
+{
+    let (y, m, dd) = d.extract();
+    let r = d.round_century();
+    let t = d.trunc_century();
+    proof { lemma_civil_props(d.v()); }
+    let ghost base: int = (y as int - 1) / 100 * 100 + 1;
+    assert(t.is_ok() && t.unwrap().v() == dn(base, 1, 1));
+    assert(y % 100 != 0 && y as int - base >= 50 && base + 100 <= 9999 ==> r.is_ok() && r.unwrap().v() == dn(base + 100, 1, 1));
+    assert(y % 100 != 0 && y as int - base >= 50 && base + 100 > 9999 ==> r.is_err());
+    assert(y as int - base < 50 ==> r.is_ok() && r.unwrap().v() == t.unwrap().v());
+}
+
+// EXPECTED TO FAIL while known finding D8 is open (known_findings.json): year 100 of a century is past
+// the midpoint, so the strict rule sends it to the next century; the code returns the truncation.
+pub fn law_c11_kf_d8_century_end_year(d: Date)
+{
+    let (y, m, dd) = d.extract();
+    let r = d.round_century();
+    proof { lemma_civil_props(d.v()); }
+    if y % 100 == 0 && y < 9900 {
+        assert(r.is_ok() && r.unwrap().v() == dn(y as int + 1, 1, 1));
+    }
+}
+
 // ---------------------------------------------------------------- C12
 pub fn law_c12_time_interval(t: Time, i: IntervalDT)
 {
